@@ -23,6 +23,27 @@ def make_work(rng, tier):
         work.append({"id": "c07-%d" % i, "tables": tables, "runs": runs, "mode": "det" if rng.chance(70) else "threaded",
                      "threads": rng.choice([1, 8]), "det_partitions": 2,
                      "sched": {"kind": rng.choice(["fifo", "lifo", "random"]), "seed": rng.below(1 << 30)}})
+    # many-groups family: more groups than the initial directory capacity (512) so that the group table
+    # resizes (several times) while rows are still arriving; key sets are runs of consecutive integers from a
+    # random base (collision chains that wrap around the directory depend on the base)
+    nbig = 24 if tier == "quick" else 300
+    for i in range(nbig):
+        n = rng.choice([700, 1500, 3000, 3000])
+        base = rng.below(2000000)
+        reps = rng.choice([1, 2, 3])
+        # every key occurs `reps` times, later occurrences arrive after the table has been resized
+        rows = [["I%d" % (base + (j % n))] for j in range(1, reps * n + 1)]
+        tables = [("t0", [("c0", "i64")], rows, "virtual")]
+        src = "(SELECT ((s.i %% cast('%d' as bigint)) + cast('%d' as bigint)) AS c0 FROM generate_series(1, %d) AS s(i)) AS x1" % (n, base, reps * n)
+        q1 = sqlgen.Q("SELECT x1.c0 AS r0, count(*) AS r1 FROM %s GROUP BY x1.c0" % src,
+                      "(select (fq (table 0)) - (((col 0 0)) ((countstar 0 (const N)))) - ((col 0 0) (col 0 1)) 0)",
+                      ["i64", "i64"], ["r0", "r1"], {"group", "many_groups"})
+        q2 = sqlgen.Q("SELECT DISTINCT x1.c0 AS r0 FROM %s" % src,
+                      "(select (fq (table 0)) - - - ((col 0 0)) 1)", ["i64"], ["r0"], {"distinct", "many_groups"})
+        runs = []
+        for q in (q1, q2):
+            runs.append((q, {"partitions": rng.choice([1, 1, 2, 4]), "batch_size": rng.choice([64, 256, 256, 2048])}))
+        work.append({"id": "c07-big-%d" % i, "tables": tables, "runs": runs, "mode": "threaded", "threads": 4})
     return work
 
 
